@@ -6,7 +6,7 @@ WT=${WT_PREFIX:-/tmp/wt}-$ID
 P=$WT/mutation/patch.diff
 [ -f "$P" ] || { echo "no patch"; exit 9; }
 PK="./p9/ ./vecnet/ ./linux/ ./fsimpl/localfs/ ./fsimpl/qids/ ./fsimpl/staticfs/ ./fsimpl/composefs/"
-DEMOPAT='[Dd]emo|[Mm]utation|[Zz]z|C[0-9][0-9]'
+DEMOPAT="^($(cat $WT/mutation/demo/*.go 2>/dev/null | sed -n 's/^func \(Test[A-Za-z0-9_]*\)(.*/\1/p' | sort -u | paste -sd'|'))\$"
 cd $WT || exit 9
 echo "== files changed by patch:"; grep '^+++' $P
 echo "== demo WITH change (expect FAIL):"
